@@ -797,8 +797,14 @@ def r07_4(rep: Report, idx: Index) -> None:
             continue
         rep.ok(rid, construct, 'to_string applied')
 
-        def category(atom: str) -> str | None:
+        def category(atom: str, _fn=fn) -> str | None:
             t = atom
+            if re.fullmatch(r'(not )?_h\d+', t):
+                # a truth value named by the normal form: judged by what it was computed from
+                nm = t.split()[-1]
+                t = ' ; '.join(norm(a_.value) for a_ in ast.walk(_fn) if isinstance(a_, ast.Assign)
+                               and len(a_.targets) == 1 and norm(a_.targets[0]) == nm
+                               and not isinstance(a_.value, ast.Constant)) or t
             if re.search(r'\buse\b|\.usage\b|usage_allows', t):
                 return 'usage'
             if re.search(r'exclud', t, re.I):
